@@ -160,6 +160,12 @@ bool CmpNodePos::operator() (const Node* u, const Node* v) const {
     if (v->pos < u->pos) {
         return false;
     }
+    // Break ties on the variable id (the rectangle's index in every caller)
+    // before the node address, so that the scan order, and hence the
+    // generated constraints, do not depend on where nodes were allocated.
+    if (u->v->id != v->v->id) {
+        return u->v->id < v->v->id;
+    }
     return u < v;
 }
 
